@@ -158,7 +158,8 @@ def oracle_validate(p):
     P = p["P"]
     out = []
     for kw, should in [(dict(NSIG=2, threshold=3.0), "value"), (dict(NSIG=-1), "value"), (dict(NSIG=P), "value"),
-                       (dict(NSIG=P + 2), "value")]:
+                       (dict(NSIG=P + 2), "value"), (dict(NSIG=0, threshold=2.0), "value"), (dict(NSIG=3, threshold=0), "value"),
+                       (dict(NSIG=0, threshold=0.0), "value")]:
         try:
             sp.music(x, P, NFFT=32, **kw)
             out.append("eigen accepted %s (P=%d)" % (kw, P))
